@@ -804,6 +804,9 @@ class TypeAnnotator:
     def _annotate_unary(self, expression: E) -> E:
         if isinstance(expression, exp.Not):
             self._set_type(expression, exp.DType.BOOLEAN)
+        elif expression.this is None:
+            # incomplete tree (the parser annotates while it parses, also at lenient error levels)
+            return expression
         else:
             self._set_type(expression, expression.this.type)
 
